@@ -1,3 +1,7 @@
+(** * History-level corollaries for C02 over the whole router model
+
+    One of three files (Props/HistoriesC02.v, HistoriesC03.v, HistoriesC05.v);
+    the common explanation follows. *)
 (** * History-level corollaries over the whole router model (C02, C05, C03)
 
     Statements only; proofs in Router/RealmTraceLib.v, RealmTrace.v,
@@ -61,6 +65,7 @@ From Nexus Require Import Router.Realm Router.DealerLib Router.DealerReply Route
 From Nexus Require Import Router.RealmWf Router.RealmStep.
 From Nexus Require Import Router.RealmTraceLib Router.RealmTrace Router.RealmTraceC05 Router.RealmTraceInv
      Router.RealmTraceC03 Router.RealmTraceEx.
+
 
 (** ** C02 over histories *)
 
@@ -158,88 +163,6 @@ Theorem broker_outputs_quiet :
 Proof. exact broker_outputs_quiet_proof. Qed.
 Print Assumptions broker_outputs_quiet.
 
-(** ** C05 over histories: once a session has ended, no later step sends it
-    anything, until (if ever) a session with that id joins again *)
-Theorem ended_session_silent : forall cfg pre o mid o' post s m out,
-    let ops := pre ++ o :: mid ++ o' :: post in
-    Forall op_ok ops -> k0 cfg + N.of_nat (List.length ops) <= max_idN ->
-    (* [s] ends at [o]: attached before it, not after it *)
-    client (fst (run (init_realm cfg) pre)) s ->
-    ~ client (fst (run (init_realm cfg) (pre ++ [o]))) s ->
-    (* nobody joins with the id of [s] up to and including the later operation [o'] *)
-    (forall l h, ~ In (OJoin s l h) (mid ++ [o'])) ->
-    (* [out] is what the router sent while handling [o'] *)
-    nth_error (snd (run (init_realm cfg) ops)) (List.length (pre ++ o :: mid)) = Some out ->
-    ~ In (s, m) out.
-Proof. exact ended_session_silent_proof. Qed.
-Print Assumptions ended_session_silent.
-
-(** sessions become attached only by joining *)
-Theorem attached_only_by_join : forall r o k x,
-    realm_wf r -> ids_below k r -> k < max_idN -> op_ok o ->
-    lookup (fst (step r o)) x <> None -> lookup r x <> None \/ exists l h, o = OJoin x l h.
-Proof. exact step_lookup_sub. Qed.
-Print Assumptions attached_only_by_join.
-
-(** ** C03 over histories *)
-
-(** every INVOCATION sent to [y] carries a request id greater than every id
-    sent to [y] since the last JOIN with that session id (a new call: never
-    used before towards that session), or repeats the id of an INVOCATION sent
-    to [y] before (a further chunk of a progressive call) *)
-Theorem invocation_ids_increase : forall cfg ops y pre e post b,
-    Forall op_ok ops -> k0 cfg + N.of_nat (List.length ops) <= max_idN ->
-    trace cfg ops = pre ++ e :: post -> inv_ev y b e ->
-    (forall i, sent_live y i pre -> i < b) \/ sent y b pre.
-Proof. exact invocation_ids_increase_all_proof. Qed.
-Print Assumptions invocation_ids_increase.
-
-(** after [y]'s UNREGISTER of [rid] was answered UNREGISTERED, an INVOCATION
-    naming [rid] reaches [y] only if [y] was answered REGISTERED [rid] in
-    between, or as a further chunk (its id was sent to [y] before) *)
-Theorem no_invocation_after_unregistered_partial : forall cfg ops y rid pre0 q orc mid b det a kw post,
-    Forall op_ok ops -> k0 cfg + N.of_nat (List.length ops) <= max_idN ->
-    along gate_unreg_id (init_realm cfg) ops ->
-    trace cfg ops = pre0 ++ EIn (OMsg y (CUnregister q rid) orc) :: EOut (y, RUnregistered q) ::
-                    mid ++ EOut (y, RInvocation b rid det a kw) :: post ->
-    (exists q', In (EOut (y, RRegistered q' rid)) mid) \/
-    sent y b (pre0 ++ EIn (OMsg y (CUnregister q rid) orc) :: EOut (y, RUnregistered q) :: mid).
-Proof. exact no_invocation_after_unregistered_proof. Qed.
-Print Assumptions no_invocation_after_unregistered_partial.
-
-Theorem gate_unreg_id_no_authz : forall cfg ops, c_authz cfg = None -> along gate_unreg_id (init_realm cfg) ops.
-Proof. exact RealmTraceC03.gate_unreg_id_no_authz. Qed.
-Print Assumptions gate_unreg_id_no_authz.
-
-Theorem gate_unreg_id_static : forall cfg ops, authz_keeps_unregister cfg -> along gate_unreg_id (init_realm cfg) ops.
-Proof. exact RealmTraceC03.gate_unreg_id_static. Qed.
-Print Assumptions gate_unreg_id_static.
-
-(** the literal statement (no exception for further chunks) is false, even
-    without authorizer *)
-Theorem invocation_after_unregistered_refuted :
-    exists cfg ops y rid pre0 q orc mid b det a kw post,
-      Forall op_ok ops /\ k0 cfg + N.of_nat (List.length ops) <= max_idN /\ c_authz cfg = None /\
-      trace cfg ops = pre0 ++ EIn (OMsg y (CUnregister q rid) orc) :: EOut (y, RUnregistered q) ::
-                      mid ++ EOut (y, RInvocation b rid det a kw) :: post /\
-      forall q', ~ In (EOut (y, RRegistered q' rid)) mid.
-Proof. exact UnregEx.invocation_after_unregistered. Qed.
-Print Assumptions invocation_after_unregistered_refuted.
-
-(** what one [step] from a well-formed realm does to INVOCATIONs, pending
-    invocation keys, generators and registration membership: it is quiet
-    ([qstep]), or a CALL routed to a client callee whose whole output is the one
-    INVOCATION — fresh id = the callee's generator + 1 with the callee a member
-    of the registration named, or the id of a pending invocation of that callee
-    ([inv_step]) —, or a session joins ([join_step]) *)
-Theorem step_invocation_facts : forall r o k,
-    realm_wf r -> ids_below k r -> k < max_idN -> op_ok o ->
-    qstep r (snd (step r o)) (fst (step r o)) \/
-    inv_step r (snd (step r o)) (fst (step r o)) \/
-    join_step r o (snd (step r o)) (fst (step r o)).
-Proof. exact step_inv_facts. Qed.
-Print Assumptions step_invocation_facts.
-
 (** ** Non-vacuity *)
 (** C02: a history without authorizer; request id 7 of session 10 is used for
     two calls (progressive RESULT, final RESULT; then the callee's ERROR), a
@@ -272,42 +195,3 @@ Proof. exact GateEx.hyps. Qed.
 Example histories_c02_refutation_breaks_gate_fresh :
     ~ along gate_fresh (init_realm Refute.cfgA) Refute.opsA.
 Proof. exact Refute.not_fresh. Qed.
-
-(** C05: session 11 is dropped; the later call of its procedure sends it
-    nothing (the caller is told no_such_procedure) *)
-Example histories_c05_hypotheses_satisfiable :
-    Forall op_ok EndedEx.ops2 /\ k0 EndedEx.cfg0 + N.of_nat (List.length EndedEx.ops2) <= max_idN /\
-    client (fst (run (init_realm EndedEx.cfg0) EndedEx.pre2)) 11 /\
-    ~ client (fst (run (init_realm EndedEx.cfg0) (EndedEx.pre2 ++ [ODrop 11]))) 11 /\
-    (forall l h, ~ In (OJoin 11 l h) (EndedEx.mid2 ++ [EndedEx.late2])) /\
-    nth_error (snd (run (init_realm EndedEx.cfg0) EndedEx.ops2)) (List.length (EndedEx.pre2 ++ ODrop 11 :: EndedEx.mid2)) =
-    Some [(10, RError c_CALL 5 [] e_no_such_procedure [] [])].
-Proof. exact EndedEx.hyps. Qed.
-
-(** C03: the INVOCATIONs (and JOINs) of a history: ids 1, 2, 1 again (further
-    chunk), and 1 afresh after session 11 joined again *)
-Example histories_c03_ids_hypotheses_satisfiable :
-    Forall op_ok InvEx.opsI /\ k0 InvEx.cfg0 + N.of_nat (List.length InvEx.opsI) <= max_idN.
-Proof. exact InvEx.hyps. Qed.
-
-Example histories_c03_invocations :
-    filter (fun e => match e with EOut m => is_inv m | EIn (OJoin _ _ _) => true | EIn _ => false end)
-           (trace InvEx.cfg0 InvEx.opsI) =
-    [EIn (OJoin 10 false hello_all); EIn (OJoin 11 false hello_all);
-     EOut InvEx.inv1; EOut InvEx.inv2; EOut InvEx.inv1'; EIn (OJoin 11 false hello_all); EOut InvEx.inv1''].
-Proof. exact InvEx.invocations. Qed.
-
-Example histories_c03_chunk_repeats :
-    exists pre post, trace InvEx.cfg0 InvEx.opsI = pre ++ EOut InvEx.inv1' :: post /\
-                     inv_ev 11 1 (EOut InvEx.inv1') /\ sent 11 1 pre.
-Proof. exact InvEx.chunk_repeats. Qed.
-
-(** C03: the hypotheses of [no_invocation_after_unregistered_partial] hold of
-    the refuting history; the INVOCATION after UNREGISTERED is a further chunk *)
-Example histories_c03_unreg_hypotheses_satisfiable :
-    Forall op_ok UnregEx.opsU /\ k0 UnregEx.cfg0 + N.of_nat (List.length UnregEx.opsU) <= max_idN /\
-    along gate_unreg_id (init_realm UnregEx.cfg0) UnregEx.opsU.
-Proof. exact UnregEx.hyps. Qed.
-
-Example histories_c03_unreg_further_chunk : sent 11 1 UnregEx.preU.
-Proof. exact UnregEx.is_further_chunk. Qed.
